@@ -2,6 +2,8 @@
 package dv
 
 import (
+	"time"
+
 	"github.com/named-data/ndnd/dv/table"
 	"github.com/named-data/ndnd/dv/tlv"
 	enc "github.com/named-data/ndnd/std/encoding"
@@ -79,4 +81,43 @@ func VerifC18_HistoryVsScratch() {
 		verifAssert(known, "C18/history/withdrawn-destination-is-not-advertised")
 	}
 	verifObserve("entries", len(out.Entries))
+}
+
+// A neighbour is declared dead while an update for its last advertisement is still pending (the advertisement
+// handler schedules `go ribUpdate(ns)`; the dead-neighbour check can win the race for the mutex): the late update,
+// running on the orphaned neighbour state, must not bring the withdrawn destinations back.
+func VerifC18_LateUpdateAfterDeath() {
+	r := verifC18Router("/r0")
+	nb, other := verifC18Name("/n1"), verifC18Name("/n2")
+	d1, d2 := verifC18Name("/d1"), verifC18Name("/d2")
+	via := verifC18Name("/x")
+	ns := r.neighbors.Add(nb)
+	ns.Advert = &tlv.Advertisement{Entries: []*tlv.AdvEntry{
+		{Destination: &tlv.Destination{Name: d1}, NextHop: &tlv.Destination{Name: via}, Cost: verifRange("c1", 1, 14), OtherCost: 16},
+		{Destination: &tlv.Destination{Name: d2}, NextHop: &tlv.Destination{Name: via}, Cost: verifRange("c2", 1, 14), OtherCost: 16},
+	}}
+	r.ribUpdate(ns)
+	// d2 is also offered by a neighbour that stays alive
+	hasOther := verifBool("otherOffersD2")
+	if hasOther {
+		ons := r.neighbors.Add(other)
+		ons.Advert = &tlv.Advertisement{Entries: []*tlv.AdvEntry{
+			{Destination: &tlv.Destination{Name: d2}, NextHop: &tlv.Destination{Name: via}, Cost: verifRange("c3", 1, 14), OtherCost: 16}}}
+		r.ribUpdate(ons)
+	}
+	verifAssert(r.rib.Has(d1) && r.rib.Has(d2), "C18/late/setup")
+	table.VerifXC18Age(ns, r.config.RouterDeadInterval()+time.Second)
+	verifNoPanic("C18/late/no-panic", func() { r.checkDeadNeighbors() })
+	verifAssert(!r.rib.Has(d1), "C18/late/destination-only-via-dead-neighbour-withdrawn")
+	// the update that was pending when the neighbour died
+	verifNoPanic("C18/late/no-panic", func() { r.ribUpdate(ns) })
+	verifAssert(!r.rib.Has(d1), "C18/late/withdrawn-destination-does-not-come-back")
+	verifAssert(r.rib.Has(d2) == hasOther, "C18/late/destination-with-alternative-kept")
+	for _, e := range r.rib.Advert().Entries {
+		verifAssert(e.Cost < 16, "C18/advert/no-destination-at-or-above-infinity")
+		verifAssert(!e.Destination.Name.Equal(d1), "C18/late/withdrawn-destination-does-not-come-back")
+		if e.Destination.Name.Equal(d2) {
+			verifAssert(!e.NextHop.Name.Equal(nb), "C18/late/no-route-via-the-dead-neighbour")
+		}
+	}
 }
